@@ -2,6 +2,7 @@ import StraxModel.Lemmas.ChunkAlgSplit
 import StraxModel.Lemmas.ChunkAlgChunk
 import StraxModel.Lemmas.ChunkAlgRechunk
 import StraxModel.Lemmas.ChunkAlgRuns
+import StraxModel.Lemmas.ChunkAlgShift
 /-
   Helper lemmas for property C07 (laws of chunking).  Core Lean only.
   The lemmas live in ChunkAlgSplit (rows, scan, split_array), ChunkAlgChunk (Chunk.__init__,
